@@ -12,7 +12,14 @@ Python equivalents of various excel functions
 """
 import math
 import sys
-from decimal import Decimal, ROUND_DOWN, ROUND_HALF_UP, ROUND_UP
+from decimal import (
+    Decimal,
+    ROUND_CEILING,
+    ROUND_DOWN,
+    ROUND_FLOOR,
+    ROUND_HALF_UP,
+    ROUND_UP,
+)
 
 import numpy as np
 
@@ -73,6 +80,14 @@ def atan2_(x_num, y_num):
     return math.atan2(y_num, x_num)
 
 
+def _multiple(number, significance, rounding):
+    # decimal arithmetic as in _round(): in floats 0.3 / 0.1 == 2.9999999999999996
+    significance = Decimal(repr(significance))
+    count = (Decimal(repr(number)) / significance).to_integral_value(rounding)
+    result = float(count * significance)
+    return int(result) if result.is_integer() else result
+
+
 @excel_math_func
 def ceiling(number, significance):
     # Excel reference: https://support.microsoft.com/en-us/office/
@@ -84,9 +99,9 @@ def ceiling(number, significance):
         return 0
 
     if number < 0 < significance:
-        return significance * int(number / significance)
+        return _multiple(number, significance, ROUND_DOWN)
     else:
-        return significance * math.ceil(number / significance)
+        return _multiple(number, significance, ROUND_CEILING)
 
 
 @excel_math_func
@@ -99,7 +114,7 @@ def ceiling_math(number, significance=1, mode=0):
     significance = abs(significance)
     if mode and number < 0:
         significance = -significance
-    return significance * math.ceil(number / significance)
+    return _multiple(number, significance, ROUND_CEILING)
 
 
 @excel_math_func
@@ -110,7 +125,7 @@ def ceiling_precise(number, significance=1):
         return 0
 
     significance = abs(significance)
-    return significance * math.ceil(number / significance)
+    return _multiple(number, significance, ROUND_CEILING)
 
 
 def conditional_format_ids(*args):
@@ -169,7 +184,7 @@ def floor(number, significance):
     if significance == 0:
         return DIV0
 
-    return significance * math.floor(number / significance)
+    return _multiple(number, significance, ROUND_FLOOR)
 
 
 @excel_math_func
@@ -182,7 +197,7 @@ def floor_math(number, significance=1, mode=0):
     significance = abs(significance)
     if mode and number < 0:
         significance = -significance
-    return significance * math.floor(number / significance)
+    return _multiple(number, significance, ROUND_FLOOR)
 
 
 @excel_math_func
@@ -193,7 +208,7 @@ def floor_precise(number, significance=1):
         return 0
 
     significance = abs(significance)
-    return significance * math.floor(number / significance)
+    return _multiple(number, significance, ROUND_FLOOR)
 
 
 @excel_math_func
